@@ -279,6 +279,7 @@ class SciPyOptimizer(Optimizer):
         lin_coef: NDArray[np.float64] | None,
     ) -> NDArray[np.float64]:
         assert self._normalized_constraints is not None
+        self._validate_cache(variables)
         if self._normalized_constraints.constraints is None:
             constraints = []
             if self._config.nonlinear_constraints is not None:
@@ -298,6 +299,7 @@ class SciPyOptimizer(Optimizer):
         lin_coef: NDArray[np.float64] | None,
     ) -> NDArray[np.float64]:
         assert self._normalized_constraints is not None
+        self._validate_cache(variables)
         if self._normalized_constraints.gradients is None:
             gradients = []
             if self._config.nonlinear_constraints is not None:
@@ -406,16 +408,7 @@ class SciPyOptimizer(Optimizer):
         if self._method in _NO_GRADIENT:
             get_gradient = False
 
-        if (
-            self._cached_variables is None
-            or variables.shape != self._cached_variables.shape
-            or not np.allclose(variables, self._cached_variables)
-        ):
-            self._cached_variables = None
-            self._cached_function = None
-            self._cached_gradient = None
-            if self._normalized_constraints is not None:
-                self._normalized_constraints.reset()
+        self._validate_cache(variables)
 
         function = self._cached_function if get_function else None
         gradient = self._cached_gradient if get_gradient else None
@@ -424,7 +417,6 @@ class SciPyOptimizer(Optimizer):
         compute_gradients = get_gradient and gradient is None
 
         if compute_functions or compute_gradients:
-            self._cached_variables = variables.copy()
             compute_functions = compute_functions or self._config.optimizer.speculative
             compute_gradients = compute_gradients or self._config.optimizer.speculative
             new_function, new_gradient = self._compute_functions_and_gradients(
@@ -444,6 +436,21 @@ class SciPyOptimizer(Optimizer):
                     gradient = new_gradient
 
         return function, gradient
+
+    def _validate_cache(self, variables: NDArray[np.float64]) -> None:
+        # All cached values belong to the point stored in `_cached_variables`.
+        # Any callable handed to SciPy may be the first one that is called at
+        # a new point, hence each of them must validate the cache first.
+        if (
+            self._cached_variables is None
+            or variables.shape != self._cached_variables.shape
+            or not np.allclose(variables, self._cached_variables)
+        ):
+            self._cached_variables = variables.copy()
+            self._cached_function = None
+            self._cached_gradient = None
+            if self._normalized_constraints is not None:
+                self._normalized_constraints.reset()
 
     def _compute_functions_and_gradients(
         self,
